@@ -1,7 +1,8 @@
 """GEO fragment: tape -> small Scenic program (1-4 objects, workspace, containers, collision and
 visibility flags, hard/soft user requirements) + the description the oracle needs to re-evaluate it.
 
-0 on the tape is always the simplest choice (one default box in a rectangular workspace, no
+Three layouts: classic(), occlusion() (observers, occluding walls, `visible from` / `not visible from` targets) and tower() (a
+DifferenceRegion container, objects at very different altitudes).  0 on the tape is always the simplest choice (one default box in a rectangular workspace, no
 requirements).  Everything the oracle must know (containers, predicates, shapes) is in the
 returned description; the Scenic text is rendered from the same description.
 """
@@ -36,6 +37,8 @@ def twobody():
 
 
 def region_text(s):
+    if s["kind"] == "diff":
+        return f"{region_text(s['A'])}.difference({region_text(s['B'])})"
     if s["kind"] == "rect":
         return f"RectangularRegion(({s['pos'][0]}, {s['pos'][1]}), {s['heading']}, {s['w']}, {s['l']})"
     if s["kind"] == "box":
@@ -174,7 +177,7 @@ def eval_pred(p, objs, eps=1e-7):
     return None if abs(d) <= eps else d > 0
 
 
-def generate(t):
+def classic(t):
     two = t.chance(1, 4, "mode2D")
     ws = gen_region(t, "ws.", ["rect", "poly"] if two else ["rect", "box", "poly"], False)
     conts = [gen_region(t, "c0.", ["rect", "poly"] if two else ["rect", "box", "poly"], True)] if t.chance(2, 5, "container") else []
@@ -255,6 +258,69 @@ def generate(t):
         if not guest["ego"]:
             guest["visible"] = None
         ranges[-2:] = [None, (s[0] - 1.5, s[0] + 1.5, s[1] - 1.5, s[1] + 1.5)]
+    return two, ws, conts, objs, ranges, [None, "fixed-pair", "fixed-pair" if two else "embedded"][feature], streak, []
+
+
+def new_obj(name, pos, dims, **kw):
+    return dict({"name": name, "ego": False, "shape": "box", "dims": [("c", d) if d else None for d in dims], "pos": pos, "facing": None,
+                 "allow": "F", "cont": None, "visible": None}, **kw)
+
+
+def occlusion(t):
+    """3D: an ego (+ optionally an OrientedPoint observer) with a short visibleDistance, thin occluding walls in front of it (one may
+    be far longer than the visibleDistance, with its centre out of range), and 2-4 small targets declared `visible from <observer>`,
+    `not visible from <observer>` or `with requireVisible True`, in front of or behind the walls."""
+    D = t.choice([8, 30, 12], "oc.D")
+    ws = {"kind": "rect", "pos": [0, 0], "heading": 0, "w": 400, "l": 400}
+    objs, ranges, pre, points = [new_obj("ego", "at (0, 0, 0.5)", [None] * 3, ego=True, vdist=D, vang=None)], [None], [], {}
+    if t.chance(1, 2, "oc.point"):
+        p, vd = (t.choice([3, -2, 0], "oc.px"), t.choice([-1, 0.5], "oc.py"), 0.5), t.choice([12, 8, 30], "oc.pD")
+        pre.append(f"obs = new OrientedPoint at ({p[0]}, {p[1]}, {p[2]}), with visibleDistance {vd}, with viewRayCount (12, 8)")
+        points["obs"] = (p, vd)
+    for k in range(1 + t.draw(2, "oc.nwalls")):
+        ln, hh = t.choice([100, 8, 3], f"oc.w{k}.len"), t.choice([3, 6, 1.2], f"oc.w{k}.h")
+        cx = t.choice([45, 0, -40] if ln == 100 else [0, 2, -3], f"oc.w{k}.cx")
+        objs.append(new_obj(f"w{k}", f"at ({cx}, Range(2, 5), {hh / 2})", [ln, 0.5, hh], facing=t.choice([None, "Range(-15, 15) deg"], f"oc.w{k}.f")))
+        ranges.append((cx, cx, 2, 5))
+    ymax = min(D - 1, 12)
+    for k in range(2 + t.draw(3, "oc.ntargets")):
+        spec = 0 if k == 0 else t.weighted([4, 2, 2, 1] if k == 1 else [2, 1, 1, 1], f"oc.t{k}.spec")  # >= 1 (mostly >= 2) `visible from`
+        who = "obs" if points and t.chance(1, 2, f"oc.t{k}.who") else "ego"
+        o = new_obj("abcd"[k], f"at (Range(-4, 4), Range(1, {ymax}), 0.5)", [t.choice([0.5, 1, 0.3], f"oc.t{k}.w"), t.choice([0.5, 1], f"oc.t{k}.l"), None],
+                    visible=True if spec == 1 else None)
+        if spec in (0, 2):
+            o["extra"] = f", {'not ' if spec == 2 else ''}visible from {who}"
+            o["seen"] = (("obj", 0) if who == "ego" else ("point",) + points[who], spec == 0)
+        objs.append(o)
+        ranges.append((-4, 4, 1, ymax))
+    return False, ws, [], objs, ranges, "occlusion", False, pre
+
+
+def tower(t):
+    """3D: a tall box minus a polygonal keep-out footprint (a DifferenceRegion) as workspace or as regionContainedIn, and objects at
+    very different altitudes, the first one mostly near the ground."""
+    A = {"kind": "box", "pos": [0, 0, 150], "yaw": 0, "dims": [40, 40, 320]}
+    if t.chance(1, 3, "tw.poly"):
+        B = {"kind": "poly", "points": [(2.5 * x, 2.5 * y) for x, y in POLYS[0][0]]}
+    else:
+        B = {"kind": "rect", "pos": [t.choice([0, 3], "tw.bx"), t.choice([0, -2], "tw.by")], "heading": t.choice([0, 0.3], "tw.hd"),
+             "w": t.choice([20, 12], "tw.w"), "l": t.choice([20, 16], "tw.l")}
+    diff = {"kind": "diff", "A": A, "B": B}
+    as_cont = t.chance(1, 3, "tw.as-container")
+    objs, ranges = [], []
+    for k in range(2 + t.draw(3, "tw.nobj")):
+        z = [0.5, 150, 120, 260, 30][t.weighted([6, 1, 1, 1, 1] if k == 0 else [2, 3, 3, 1, 1], f"tw.o{k}.z")]
+        pos = "in workspace" if t.chance(1, 6, f"tw.o{k}.in") else f"at (Range(-18, 18), Range(-18, 18), {z})"
+        objs.append(new_obj("abcd"[k], pos, [t.choice([1, 2, 0.5], f"tw.o{k}.{d}") for d in "wlh"],
+                            facing=t.choice([None, "Range(0, 360) deg"], f"tw.o{k}.f"), allow=t.choice(["F", "U"], f"tw.o{k}.allow"),
+                            cont=0 if as_cont and t.draw(4, f"tw.o{k}.cont") else None))
+        ranges.append((-18, 18, -18, 18))
+    return False, (A if as_cont else diff), ([diff] if as_cont else []), objs, ranges, "tower", False, []
+
+
+def generate(t):
+    two, ws, conts, objs, ranges, feature, streak, pre = (classic, occlusion, tower)[t.weighted([8, 2, 2], "layout")](t)
+    n, names, lines = len(objs), [o["name"] for o in objs], []
     meshy = any(o["shape"] in ("mesh", "lmesh") for o in objs)
     nh, ns = t.weighted([3, 3, 2, 1], "nhard"), t.weighted([3, 2, 1], "nsoft")
     reqs = [{"pred": gen_pred(t, n, f"h{k}."), "prob": None} for k in range(nh)]
@@ -276,6 +342,7 @@ def generate(t):
     lines.append(f"workspace = Workspace({region_text(ws)})")
     for k, c in enumerate(conts):
         lines.append(f"r{k} = {region_text(c)}")
+    lines += pre
     for o in objs:
         s = f"{o['name']} = new Object {o['pos']}"
         if SHAPES[o["shape"]]:
@@ -295,9 +362,14 @@ def generate(t):
             s += f", with visibleDistance {o['vdist']}" + ("" if two else ", with viewRayCount (12, 8)")  # few rays: canSee stays cheap
             if o["vang"]:
                 s += f", with viewAngle {o['vang'][0]} deg" if two else f", with viewAngles ({o['vang'][0]} deg, {o['vang'][1]} deg)"
-        lines.append(s)
+        lines.append(s + o.get("extra", ""))
     for r in reqs:
         r["line"] = len(lines) + 1
         lines.append(("require " if r["prob"] is None else f"require[{r['prob']}] ") + pred_text(r["pred"], names))
-    feature = [None, "fixed-pair", "fixed-pair" if two else "embedded"][feature]
-    return {"mode2D": two, "ws": ws, "conts": conts, "objs": objs, "reqs": reqs, "streak": streak, "feature": feature, "text": "\n".join(lines) + "\n"}
+    # every visibility obligation: target index, observer (("obj", index) or ("point", position, visibleDistance)), must-be-visible?
+    vis = [{"target": k, "observer": o["seen"][0], "positive": o["seen"][1]} for k, o in enumerate(objs) if o.get("seen")]
+    if objs[0]["ego"]:  # requireVisible (the default of Object2D) is visibility from the ego
+        vis += [{"target": k, "observer": ("obj", 0), "positive": True} for k, o in enumerate(objs)
+                if k and (o["visible"] is True or (two and o["visible"] is None))]
+    return {"mode2D": two, "ws": ws, "conts": conts, "objs": objs, "reqs": reqs, "streak": streak, "feature": feature, "vis": vis,
+            "text": "\n".join(lines) + "\n"}
